@@ -1357,14 +1357,29 @@ const BASES: &[&str] = &[
 
 fn gen_b64ish(r: &mut Rng) -> String {
     use base64::{engine::general_purpose::URL_SAFE, Engine as _};
-    let good = URL_SAFE.encode(gen_err_bytes(r));
+    let how = r.below(8);
+    // tampering keeps the decoded text ASCII (or makes decoding fail): start from an ASCII payload and
+    // only clear bits / cut / add symbols, so that no scalar with an unmodelled `{:?}` rendering appears
+    let payload = if how < 2 {
+        gen_err_bytes(r)
+    } else {
+        let mut v = format!("{}|", r.pick(PREFIXES)).into_bytes();
+        if r.chance(1, 4) {
+            v.clear();
+        }
+        for _ in 0..r.below(9) {
+            v.push(if r.chance(1, 3) { *r.pick(HOSTILE_ASCII) as u8 } else { *r.pick(&[b'a', b'Z', b'|', b'0', b' ']) });
+        }
+        v
+    };
+    let good = URL_SAFE.encode(payload);
     let mut s: Vec<char> = good.chars().collect();
-    match r.below(8) {
+    match how {
         0 | 1 => {}
         2 => {
             if !s.is_empty() {
                 let at = r.below(s.len());
-                s[at] = *r.pick(&['=', '+', '/', ' ', '\n', '*', 'é', 'A', '_', '-']);
+                s[at] = *r.pick(&['=', '+', '/', ' ', '\n', '*', 'é', 'A', '.', '%']);
             }
         }
         3 => {
@@ -1378,14 +1393,14 @@ fn gen_b64ish(r: &mut Rng) -> String {
             }
         }
         6 => {
-            // non-canonical trailing bits
+            // non-canonical trailing bits / a different last symbol
             if let Some(i) = s.iter().rposition(|c| *c != '=') {
                 s[i] = *r.pick(&['B', 'R', 'x', '9', '_']);
             }
         }
         _ => {
             let at = r.below(s.len() + 1);
-            s.insert(at, *r.pick(&['=', '%', 'Q']));
+            s.insert(at, *r.pick(&['=', '%', '=', '\n']));
         }
     }
     s.into_iter().collect()
@@ -1442,6 +1457,20 @@ fn gen_hex_arg(r: &mut Rng) -> Vec<u8> {
     }
 }
 
+/// arguments for the exact corruption ops: ASCII only, so that a flipped bit yields ASCII or ill-formed
+/// UTF-8 and never a scalar whose `{:?}` rendering the model only approximates
+fn gen_hex_arg_ascii(r: &mut Rng) -> Vec<u8> {
+    let mut v = if r.chance(1, 2) { vec![b'E', r.below(12) as u8] } else { vec![] };
+    for _ in 0..r.below(12) {
+        v.push(match r.below(3) {
+            0 => *r.pick(HOSTILE_ASCII) as u8,
+            1 => r.below(0x80) as u8,
+            _ => *r.pick(&[b'a', b'|', b'Z', b'0']),
+        });
+    }
+    v
+}
+
 fn gen_mut(r: &mut Rng) -> String {
     match r.below(3) {
         0 => format!("t{}", r.below(400)),
@@ -1482,7 +1511,7 @@ fn gen(seed: u64, n: usize, path: &str) -> std::io::Result<()> {
         match r.below(20) {
             0 | 1 | 2 => {
                 writeln!(f, "case {i}-errfmt")?;
-                writeln!(f, "ser {ty} {} {}", gen_variant(&mut r), hex(gen_text(&mut r, 8, ty == "n").as_bytes()))?
+                writeln!(f, "ser {ty} {} {}", gen_variant(&mut r), hex(gen_text(&mut r, 8, ty == "c").as_bytes()))?
             }
             3 | 4 | 5 => {
                 writeln!(f, "case {i}-errdecode")?;
@@ -1498,7 +1527,7 @@ fn gen(seed: u64, n: usize, path: &str) -> std::io::Result<()> {
                     hex(base.as_bytes()),
                     hex(path.as_bytes()),
                     gen_variant(&mut r),
-                    hex(gen_text(&mut r, 8, ty == "n").as_bytes())
+                    hex(gen_text(&mut r, 8, ty == "c").as_bytes())
                 )?
             }
             8 => {
@@ -1571,7 +1600,7 @@ fn gen(seed: u64, n: usize, path: &str) -> std::io::Result<()> {
                     r.pick(HEXFNS),
                     r.pick(&["req", "res"]),
                     gen_mut(&mut r),
-                    hex(&gen_hex_arg(&mut r))
+                    hex(&gen_hex_arg_ascii(&mut r))
                 )?
             }
             18 => {
